@@ -6,7 +6,7 @@
    netfilter prefixes, addresses) subject to [cfg_ok c] where stated (the netfilter
    gateway is the host's own address, as the property words it), every history h,
    every step t of its trace, on the model of the REPAIRED code (FIXLOG.md:
-   7baf630 c9f204c d6f86b5 handlers/dhcp4_spoofer, 94e2701 AppendOptions). *)
+   7baf630 c9f204c d6f86b5 e01fd08 ec7166b 8b460ec c6ea1f8 handlers/dhcp4_spoofer, 94e2701 AppendOptions). *)
 From PV Require Import Base.Prelude Base.Text Model.DHCP Model.DHCPShow Spec.DHCP Spec.DHCPCheck
   Proofs.DHCP Proofs.DHCPInv Proofs.DHCPReply Proofs.DHCPTie Proofs.DHCPRefuted.
 Open Scope list_scope.
@@ -38,30 +38,22 @@ Theorem C12_ack_matches : forall c h t m r,
 Proof. exact ack_matches_all. Qed.
 Print Assumptions C12_ack_matches.
 
-(* Requests that cannot be honoured (another server selected; unknown, freed, EXPIRED or
-   mismatching lease; address outside the client's subnet) are never ACKed — FALSE of the
-   faithful model: finding c12-expired-lease-acked (only the renewing path compares the
-   lease's expiry with the clock; selecting / rebooting / rebinding ACK a lease whose
-   DHCPExpiry has passed and which MinuteTicker has not freed yet). *)
-Theorem C12_no_ack_when_refuted : exists c h t m r,
-  In t (trace c (init c) h) /\ op_msg (t_op t) = Some m /\ t_reply t = Some r /\
-  r_type r = RAck /\ cannot_honour c (t_pre t) m (op_now (t_op t)) = true.
-Proof. exact no_ack_when_refuted. Qed.
-Print Assumptions C12_no_ack_when_refuted.
-
-(* True on the complement of exactly that class. *)
-Theorem C12_no_ack_when_partial : forall c h t m,
+(* Requests that cannot be honoured — another server selected; unknown or freed lease;
+   EXPIRED lease (DHCPExpiry before the clock value the handler reads at that step, whether
+   or not MinuteTicker has freed it); mismatching lease; address outside the client's
+   subnet — are never ACKed. *)
+Theorem C12_no_ack_when : forall c h t m,
   In t (trace c (init c) h) -> op_msg (t_op t) = Some m ->
-  known_c12_expired t = false ->
   c12_no_ack_when c (t_pre t) m (op_now (t_op t)) (t_reply t) = true.
-Proof. exact no_ack_when_partial. Qed.
-Print Assumptions C12_no_ack_when_partial.
+Proof. exact no_ack_when_all. Qed.
+Print Assumptions C12_no_ack_when.
 
-(* The spec column of D12 is empty along every history outside the recorded class. *)
-Theorem C12_spec_column_partial : forall c h t,
-  cfg_ok c -> In t (trace c (init c) h) -> known_c12_expired t = false -> c12_fails c t = [].
-Proof. exact c12_fails_partial. Qed.
-Print Assumptions C12_spec_column_partial.
+(* The spec column of D12 (failed C12 demands per step on the model's trace) is empty
+   along every history: every alarm of the run is a model/implementation disagreement. *)
+Theorem C12_spec_column_never_fails : forall c h t,
+  cfg_ok c -> In t (trace c (init c) h) -> c12_fails c t = [].
+Proof. exact c12_fails_nil. Qed.
+Print Assumptions C12_spec_column_never_fails.
 
 (* A lease file left behind by a run with other prefix lengths does not change the
    configuration in force (configChanged as repaired by e01fd08): the handler then
@@ -88,3 +80,12 @@ Example C12_nak_example :
   option_map r_type (t_reply t) = Some RNak.
 Proof. exact nak_example. Qed.
 Print Assumptions C12_nak_example.
+
+(* an expired lease exists along a history (expiry rewritten 30 s into the past) and its
+   INIT-REBOOT request is NAKed *)
+Example C12_expired_example :
+  map (fun t => (lease_expired (t_pre t) (dmsg0 c1 1 (Some ipB) None) (op_now (t_op t)), option_map r_type (t_reply t)))
+      (trace wcfg (init wcfg) (with_ch0 wexp))
+  = [(false, Some ROffer); (false, Some RAck); (false, None); (true, Some RNak)].
+Proof. exact expired_example. Qed.
+Print Assumptions C12_expired_example.
